@@ -200,7 +200,20 @@ def check_c12(tier):
             rep.violation("many handles: " + line[4:300], {"engine": "c12_many", "message": line[4:400], "history": ["%d handles registered, then each selected again" % nmany]})
     if r.returncode != 0 or "TOTAL" not in r.stdout:
         sys.stderr.write("c12_many failed rc=%d: %s\n" % (r.returncode, r.stdout[-1000:])); raise SystemExit(2)
+    namesf = os.path.join(b.dir, "catalogue_names.txt")
+    open(namesf, "w").write("\n".join(solutions_list(b)) + "\n")
+    r = subprocess.run([cm, "0", namesf], stdout=subprocess.PIPE, stderr=subprocess.STDOUT, text=True)
+    npairs = 0
+    for line in r.stdout.split("\n"):
+        if line.startswith("BAD "):
+            rep.violation("re-initialisation matrix: " + line[4:400], {"engine": "c12_many", "message": line[4:500], "history": [line[4:200]]})
+        elif line.startswith("TOTAL "):
+            npairs = int(line.split()[1])
+    if r.returncode != 0 or npairs == 0:
+        sys.stderr.write("c12_many (pairs) failed rc=%d: %s\n" % (r.returncode, r.stdout[-1000:])); raise SystemExit(2)
     cover(rep, results)
+    rep.coverage["reinitialisation_pairs"] = npairs
+    rep.coverage["states"] += npairs; rep.coverage["transitions"] += 2 * npairs; rep.coverage["traces_validated_against_impl"] += npairs
     rep.coverage["handles_in_one_registry"] = nmany
     rep.coverage["states"] += nmany; rep.coverage["transitions"] += 4 * nmany; rep.coverage["traces_validated_against_impl"] += nmany
     rep.coverage["two_handle_evaluator_checks"] = nsel
